@@ -9,6 +9,9 @@ from .facts import extract, FactsError, VERIF
 from .core import Result, finish
 from .interp import InterpError
 
+# development only: the selftest matrix analyses scratch copies; registered checks always read /repo
+REPO = os.environ.get('VERIF_SELFTEST_REPO', '/repo')
+
 TRUSTED = [
     'rustc nightly front end / MIR construction / const evaluation (facts come from tcx.optimized_mir at -Zmir-opt-level=0, dev profile)',
     'library models in sa/models.py (f32::max/min/clamp, Ord::min/max, heapless Vec/HistoryBuffer, slice/iterator adaptors, Option/Result helpers, libm tan)',
@@ -188,6 +191,46 @@ ASSUMPTIONS = {
 }
 
 
+def run_control(res, prop, spec, tier):
+    """E4 positive control: the same rules must FIRE on a copy of /repo's current tree with a known violating change
+    applied (controls/<prop>.diff).  A control whose patch no longer applies is skipped (recorded), one that applies
+    but is not reported fails the check closed."""
+    import shutil, subprocess, tempfile
+    patch = os.path.join(VERIF, 'controls', prop + '.diff')
+    if not os.path.exists(patch):
+        res.extra['control'] = 'none'
+        return
+    tmp = tempfile.mkdtemp(prefix='control-')
+    try:
+        for item in ('src', 'Cargo.toml', 'Cargo.lock', 'README.md'):
+            src = os.path.join(REPO, item)
+            if os.path.isdir(src):
+                shutil.copytree(src, os.path.join(tmp, item))
+            elif os.path.exists(src):
+                shutil.copy(src, os.path.join(tmp, item))
+        r = subprocess.run(['patch', '-p1', '--no-backup-if-mismatch', '-s', '-i', patch], cwd=tmp, stdout=subprocess.PIPE, stderr=subprocess.STDOUT, text=True)
+        if r.returncode != 0:
+            res.extra['control'] = 'skipped: control patch does not apply to the current tree'
+            return
+        try:
+            cfacts, ckey, secs, cached = extract('dev', use_cache=True, repo=tmp)
+        except FactsError as e:
+            res.extra['control'] = 'skipped: control tree does not build (%s)' % str(e)[:200]
+            return
+        cres = Result(prop)
+        try:
+            spec['fn'](cres, cfacts, 'quick')
+        except (InterpError, FactsError) as e:
+            cres.ob('ANALYSIS', 'control', False, str(e))
+        fired = [o for o in cres.violations()]
+        res.extra['control'] = {'patch': 'controls/%s.diff' % prop, 'violations_reported_on_control': len(fired),
+                                'first': fired[0].to_json() if fired else None, 'facts_key': ckey}
+        res.ob('CONTROL', 'rules fire on the known-bad twin (controls/%s.diff)' % prop, bool(fired),
+               'the positive control was NOT reported: the rule set for %s has gone blind' % prop, key='CONTROL:' + prop, nontrivial=False)
+    finally:
+        shutil.rmtree(tmp, ignore_errors=True)
+
+
 def main(argv):
     if not argv:
         print(__doc__)
@@ -212,7 +255,7 @@ def main(argv):
     spec = PROPS[prop]
     key = '?'
     try:
-        facts, key, secs, cached = extract('dev', use_cache=(tier == 'quick'))
+        facts, key, secs, cached = extract('dev', use_cache=(tier == 'quick'), repo=REPO)
         res.extra['extraction_s'] = round(secs, 2)
         res.extra['facts_cached'] = cached
         spec['fn'](res, facts, tier)
@@ -223,5 +266,7 @@ def main(argv):
     except Exception as e:
         traceback.print_exc()
         res.ob('ANALYSIS', 'internal', False, 'internal error: %r' % (e,), key='ANALYSIS-INTERNAL')
+    if not res.violations():
+        run_control(res, prop, spec, tier)
     return finish(res, tier, spec['level'], t0, key, ASSUMPTIONS['common'] + spec.get('assumptions', []),
                   spec['explanation'], TRUSTED, seed)
